@@ -117,6 +117,36 @@ def m_send_poll(it, a, ty, callee):
     return Adt(POLL, 0, [res_ok(UNIT)])
 
 
+class RecvFut(Model):
+    """the future returned by `Receiver::recv`"""
+    __slots__ = ('rx',)
+
+    def __init__(self, rx):
+        self.rx = rx
+
+
+def m_recv(it, a, ty, callee):
+    return RecvFut(_chan(it, a[0]))
+
+
+def m_recv_poll(it, a, ty, callee):
+    """Ready(Some(v)) when a message is queued, otherwise Pending (the harness managers keep a sender of their own
+    channels alive, so `None` - every sender dropped - does not occur)"""
+    fut = a[0]
+    if isinstance(fut, Adt) and fut.ty == 'std::pin::Pin':
+        fut = fut.fields[0]
+    f = it.load(fut) if isinstance(fut, Ptr) else fut
+    if not isinstance(f, RecvFut):
+        raise Inconclusive('poll of an unmodelled tokio future: %r' % (f,))
+    ch = it.load(f.rx)
+    POLL = 'std::task::Poll'
+    if not ch.fields:
+        return Adt(POLL, 1, ())
+    it.store(f.rx, Channel(ch.fields[1:], ch.cap, ch.closed))
+    from .core import opt_some
+    return Adt(POLL, 0, [opt_some(ch.fields[0])])
+
+
 def m_try_recv(it, a, ty, callee):
     p = _chan(it, a[0])
     ch = it.load(p)
@@ -261,6 +291,8 @@ def install(it):
     A(r'tokio::sync::mpsc::Sender::<.*>::try_send', m_try_send)
     A(r'tokio::sync::mpsc::Sender::<.*>::send', m_send)
     A(r'tokio::sync::mpsc::Receiver::<.*>::try_recv', m_try_recv)
+    A(r'tokio::sync::mpsc::Receiver::<.*>::recv', m_recv)
+    A(r'<\{async fn body of tokio::sync::mpsc::Receiver<.*>::recv\(\)\} as (?:std::future|futures)::Future>::poll', m_recv_poll)
     A(r'<tokio::sync::mpsc::Sender<.*> as std::clone::Clone>::clone', m_sender_clone)
     A(r'tokio::sync::mpsc::Sender::<.*>::downgrade', m_sender_clone)
     A(r'tokio::sync::mpsc::WeakSender::<.*>::upgrade', m_weak_upgrade)
